@@ -452,6 +452,200 @@ zname_case(size_t n)
 }
 #endif
 
+#if defined TOOL_dadd || defined TOOL_dround || defined TOOL_dseq
+/* ---- duration lists of every length (the list of dt-io.c grows in steps of 16 entries) ----
+ * dadd / dround: the list (i) as one concatenated argument, (ii) one argument per duration, (iii, dadd) as one
+ * line on stdin for `dadd DATE'; the result must equal the chain of runs that apply one duration at a time.
+ * dseq: the compound increment `dseq FIRST <list> LAST'; its second line must equal FIRST plus the durations
+ * added one at a time by the library. */
+#define DL_DATE	"2012-03-04T12:34:56"
+#if defined TOOL_dadd
+static const int dl_pats[] = {0, 1, 2, 3, 4, 5, 6, 7, 8, 9};
+# define DL_NFORM	3
+#elif defined TOOL_dround
+static const int dl_pats[] = {0, 3, 4, 5, 6, 7, 10};
+# define DL_NFORM	2
+#else
+static const int dl_pats[] = {0, 1, 2, 3, 4};
+# define DL_NFORM	1
+#endif
+#define DL_NPAT	((int)(sizeof(dl_pats) / sizeof(*dl_pats)))
+static const char *const dl_form[] = {"one concatenated argument", "one argument per duration", "one line on stdin"};
+
+/* run and keep stdout; class key prefix names the form.  Returns 0 ok, 1 report/signal (already recorded) */
+static int
+dl_run(int argc, const char *const *argv, const char *in, char *out, size_t osz, const char *form, double ord, const char *cas)
+{
+	EX_CTR(c_eval, "evaluations");
+	EX_CTR(c_runs, "tool_runs");
+	struct fs_opts o = {0};
+	struct fs_result r;
+	char key[300], cmd[1800];
+	const char *rep;
+	size_t k = 0;
+	int bad = 0;
+
+	++*c_runs;
+	++*c_eval;
+	o.stdin_data = in;
+	o.stdin_len = in ? strlen(in) : 0;
+	o.now = 1330862400;
+	o.env = env_tool;
+	o.timeout_s = 2;
+	o.out_cap = 1U << 20;
+	xr.total = 0;
+	xr.n = 0;
+	xr_emit_fd = 2;
+	fs_run(tool_main_guarded, argc, argv, &o, &r);
+	xr_emit_fd = -1;
+	snprintf(out, osz, "%s", r.out ? r.out : "");
+	if (in) {
+		k += (size_t)snprintf(cmd + k, sizeof(cmd) - k, "echo '%.600s' | ", in);
+		if (k && cmd[k - 5] == '\n') {
+			;
+		}
+	}
+	for (int i = 0; i < argc && k + 64 < sizeof(cmd); i++) {
+		k += (size_t)snprintf(cmd + k, sizeof(cmd) - k, i ? "'%.600s' " : "%s ", argv[i]);
+	}
+	for (char *q = cmd; *q; q++) {
+		if (*q == '\n') {
+			*q = ' ';
+		}
+	}
+	rep = r.err ? strstr(r.err, "C10REPORT ") : NULL;
+	if (rep) {
+		char line[200];
+		snprintf(line, sizeof(line), "%.180s", rep + 10);
+		line[strcspn(line, "\n")] = '\0';
+		snprintf(key, sizeof(key), TOOLNAME " duration list (%s): %s", form, line);
+		report(key, ord, cas, cmd, "%s: %s; the run ended with %s", cmd, line, fs_ending(&r));
+		bad = 1;
+	} else if (r.timed_out || r.capped || r.signaled) {
+		snprintf(key, sizeof(key), TOOLNAME " duration list (%s): %s", form, r.timed_out ? "does not end within 2 s" : r.capped ? "output cap (1 MiB) hit" :
+			 r.sig == SIGABRT ? "abort()" : r.sig == SIGSEGV ? "SIGSEGV" : "fatal signal");
+		report(key, ord, cas, cmd, "%s: %s; stderr: %.200s", cmd, fs_ending(&r), r.err ? r.err : "");
+		bad = 1;
+	}
+	if (replay_verbose) {
+		printf("  %s\n  -> %s, stdout '%.60s', stderr: %.200s\n", cmd, fs_ending(&r), out, r.err ? r.err : "");
+	}
+	if (ex_want_sample()) {
+		ex_sample("%.300s -> %s, '%.40s'", cmd, fs_ending(&r), out);
+	}
+	ex_outcome(ex_hash(out, strlen(out)));
+	fs_free(&r);
+	return bad;
+}
+
+/* all list lengths 1..maxn of one pattern / sign variant; ONLY_N >= 0: judge that length only (replay) */
+static void
+durlist_pattern(int pi, int sv, int only_n)
+{
+	EX_CTR(c_nontriv, "nontrivial");
+	EX_CTR(c_dl, "duration_list_runs_compared");
+	int pat = dl_pats[pi], maxn = XD_MAXN(ex.thorough);
+	char chain[256] = DL_DATE "\n", all[1400], el[24], out[4096], cas[64], key[300];
+	static char elems[80][24];
+
+	for (int n = 1; n <= maxn && !ex_expired(); n++) {
+		const char *argv[90];
+		char date[256], exp[256];
+		int argc;
+
+		xd_elem(pat, sv, n - 1, el, sizeof(el));
+		snprintf(elems[n - 1], sizeof(elems[n - 1]), "%s", el);
+		snprintf(date, sizeof(date), "%s", chain);
+		date[strcspn(date, "\n")] = '\0';
+#if defined TOOL_dseq
+		{
+			/* the library, one duration at a time */
+			struct dt_dt_s d = dt_strpdt("2012-03-04", NULL, NULL);
+			for (int i = 0; i < n; i++) {
+				struct __strpdtdur_st_s s1 = {0};
+				if (dt_io_strpdtdur(&s1, elems[i]) >= 0 && s1.ndurs == 1) {
+					d = dt_dtadd(d, s1.durs[0]);
+				}
+				__strpdtdur_free(&s1);
+			}
+			dt_strfdt(exp, sizeof(exp) - 2, NULL, d);
+			strcat(exp, "\n");
+		}
+#else
+		/* the chain: the previous result plus this one duration, in a run of its own */
+		snprintf(cas, sizeof(cas), "L %d %d %d -1", pi, sv, n);
+		argc = 0;
+		argv[argc++] = TOOLNAME;
+		argv[argc++] = date;
+		argv[argc++] = "--";
+		argv[argc++] = el;
+		if (dl_run(argc, argv, NULL, chain, sizeof(chain), "a single duration", (double)n, cas) || chain[0] == '\0') {
+			return;	/* without the reference there is nothing to compare with */
+		}
+		snprintf(exp, sizeof(exp), "%s", chain);
+#endif
+		if (only_n >= 0 && n != only_n) {
+			continue;
+		}
+		if (n > 16) {
+			++*c_nontriv;
+		}
+		for (int form = 0; form < DL_NFORM; form++) {
+			const char *in = NULL;
+			snprintf(cas, sizeof(cas), "L %d %d %d %d", pi, sv, n, form);
+			argc = 0;
+			argv[argc++] = TOOLNAME;
+#if defined TOOL_dseq
+			xd_join(pat, sv, n, "", all, sizeof(all));
+			argv[argc++] = "2012-03-04";
+			argv[argc++] = all;
+			/* LAST = the expected second element, so that two lines come out */
+			exp[strcspn(exp, "\n")] = '\0';
+			argv[argc++] = exp;
+#else
+			argv[argc++] = DL_DATE;
+			if (form == 0) {
+				xd_join(pat, sv, n, "", all, sizeof(all));
+				argv[argc++] = "--";
+				argv[argc++] = all;
+			} else if (form == 1) {
+				argv[argc++] = "--";
+				for (int i = 0; i < n; i++) {
+					argv[argc++] = elems[i];
+				}
+			} else {
+				size_t l = xd_join(pat, sv, n, " ", all, sizeof(all) - 2);
+				all[l] = '\n';
+				all[l + 1] = '\0';
+				in = all;
+			}
+#endif
+			if (dl_run(argc, argv, in, out, sizeof(out), dl_form[form], (double)n, cas)) {
+				continue;
+			}
+			++*c_dl;
+#if defined TOOL_dseq
+			{
+				/* second line of the output */
+				char *l2 = strchr(out, '\n');
+				char want[300];
+				snprintf(want, sizeof(want), "2012-03-04\n%s\n", exp);
+				if (l2 == NULL || strcmp(out, want)) {
+					snprintf(key, sizeof(key), TOOLNAME " duration list (compound increment): the first step differs from adding the durations one at a time");
+					report(key, (double)n, cas, NULL, "dseq 2012-03-04 '%s' %s prints '%.80s', the durations added one at a time give %s", all, exp, out, exp);
+				}
+			}
+#else
+			if (strcmp(out, exp)) {
+				snprintf(key, sizeof(key), TOOLNAME " duration list (%s): the result differs from applying the durations one at a time", dl_form[form]);
+				report(key, (double)n, cas, NULL, "%d durations (%s, pattern %d): all at once gives '%.60s', one run per duration gives '%.60s'", n, elems[n - 1], pat, out, exp);
+			}
+#endif
+		}
+	}
+}
+#endif
+
 #if defined TOOL_dgrep
 static const char SE[] = "%Ym=<>&|!(2 ";
 static void
@@ -613,6 +807,11 @@ main(int argc, char *argv[])
 			shape_case(iv, sh, si, n);
 		} else if ((ex.cas[0] == 'N' || ex.cas[0] == 'M') && sscanf(ex.cas + 1, " %d", &k) == 1 && k >= 0 && k < NNOT) {
 			notdate_case(k);
+#if defined TOOL_dadd || defined TOOL_dround || defined TOOL_dseq
+		} else if (ex.cas[0] == 'L' && sscanf(ex.cas, "L %d %d %d %d", &iv, &sh, &si, &k) == 4 && iv >= 0 && iv < DL_NPAT && si >= 1 && si <= 70) {
+			ex.thorough = 1;
+			durlist_pattern(iv, sh, si);
+#endif
 #if defined TOOL_dzone
 		} else if (sscanf(ex.cas, "Z %zu", &n) == 1 && n >= 30 && n < 380) {
 			zname_case(n);
@@ -681,6 +880,11 @@ main(int argc, char *argv[])
 #if defined TOOL_ddiff
 		"; in-process: ddiff's __strfdtdur with every format string over {%% d m Y w H S T r 0 b -} x %d durations x every buffer size 0..40 (exact-size placement)"
 #endif
+#if defined TOOL_dadd || defined TOOL_dround || defined TOOL_dseq
+		"; duration lists of every length 1..40 (thorough 70) over the units of c10_common.h (dadd: one unit throughout and units in rotation, signs all + or alternating; "
+		"dround: d mo y h m s and the co-class forms; dseq: d b w mo y as compound increment) as one argument, one argument per duration and (dadd) one stdin line: no report, "
+		"and the result equals the chain of runs with one duration each (dseq: the library adding them one at a time)"
+#endif
 #if defined TOOL_dzone
 		"; zone names of 240..262 bytes that resolve to Europe/Berlin"
 #endif
@@ -713,6 +917,17 @@ main(int argc, char *argv[])
 			notdate_case(k);
 		}
 	}
+#if defined TOOL_dadd || defined TOOL_dround || defined TOOL_dseq
+	for (int pi = 0; pi < DL_NPAT && !ex_expired(); pi++) {
+		for (int sv = 0; sv < (dl_pats[pi] == 10 || DL_NFORM == 1 ? 1 : 2); sv++, slice++) {
+			if (ex_mine(slice)) {
+				durlist_pattern(pi, sv, -1);
+				++*c_states;
+				++*c_traces;
+			}
+		}
+	}
+#endif
 #if defined TOOL_dzone
 	for (size_t n = 240; n <= 262 && !ex_expired(); n++, slice++) {
 		if (ex_mine(slice)) {
